@@ -207,7 +207,8 @@ class Recorder:
             n = len(pp)
             prev_stop = ranges[-1][1] if ranges and ranges[-1][1] >= 0 else 0
             found = None
-            for s in [prev_stop] + list(range(0, len(src) - n + 1)):
+            # frames may repeat (objects extended with copies of themselves): take the first match at or after the previous part
+            for s in list(range(prev_stop, len(src) - n + 1)) + list(range(0, prev_stop)):
                 if 0 <= s <= len(src) - n and np.array_equal(src[s:s + n], pp):
                     found = s
                     break
